@@ -130,6 +130,8 @@ class Exec:
                     return lift(vals, ty)
                 return lift(c.sv, ty)
             raise OutOfSubset("object used as a value")
+        if type(v).__name__ == "GenResult" and getattr(v, "yielded", None) is not None and (ty is None or ty.kind == "seq"):
+            return lift(v.yielded, ty)  # a generator run to completion: the sequence it yields (ghost)
         return lift(v, ty)
 
     def list_sv(self, ref, ty=None):
@@ -196,6 +198,8 @@ class Exec:
         if isinstance(base, Closure):
             if attr == "__name__":
                 return base.name
+        if isinstance(base, PySlice) and attr in ("start", "stop", "step"):
+            return getattr(base, attr)
         raise OutOfSubset(f"attribute {attr} of {type(base).__name__}")
 
     def e_JoinedStr(self, n, fr):
